@@ -83,6 +83,8 @@ fn shape_set(v: usize, k: i64) -> Vec<SShape> {
             // a polygon that repeats its first vertex at the end (explicitly closed), and a path returning to its start
             s(0, 1, SGeom::Poly(vec![(300, 0), (310, 0), (310, 10), (300, 10), (300, 0)]), Some("closed")),
             s(1, 0, SGeom::Path(vec![(400, 0), (450, 0), (450, 50), (400, 0)], 2), None),
+            // a path stating a point twice in a row
+            s(0, 0, SGeom::Path(vec![(500, 0), (600, 0), (600, 0), (600, 50)], 4), Some("twice")),
         ],
     }
 }
@@ -136,14 +138,21 @@ fn gen(four: bool, c: &mut Chooser) -> Case {
         if has_layout {
             let mut lay = SLayout::default();
             for (a, b) in edges.iter().filter(|e| e.0 == i) {
-                let o = c.cost(8, "orientation");
-                tags.push(ORIENT_TAGS[o]);
+                // options 8..=11: the rotation stated as a negative angle (-90, -180, -270; reflected -90)
+                let o = c.cost(12, "orientation");
+                tags.push(if o < 8 { ORIENT_TAGS[o] } else { "inst:negative-angle" });
                 let loc = c.cost_of(&[(100 * *a as i64 + 7, -50 * *b as i64 - 3), (0, 0), (-100000, 2000000000)], "inst-loc");
-                let angle = match o % 4 {
-                    0 => None,
-                    q => Some(90.0 * q as f64),
+                let angle = match o {
+                    8 => Some(-90.0),
+                    9 => Some(-180.0),
+                    10 => Some(-270.0),
+                    11 => Some(-90.0),
+                    _ => match o % 4 {
+                        0 => None,
+                        q => Some(90.0 * q as f64),
+                    },
                 };
-                lay.insts.push(SInst { name: format!("i_{a}_{b}"), cell: CELL_NAMES[*b].into(), loc, reflect: o >= 4, angle });
+                lay.insts.push(SInst { name: format!("i_{a}_{b}"), cell: CELL_NAMES[*b].into(), loc, reflect: (4..8).contains(&o) || o == 11, angle });
             }
             if !lay.insts.is_empty() && c.cost(2, "angle-Some(0)-and-second-placement") == 1 {
                 tags.push("inst:angle-Some(0)+second-placement");
@@ -532,7 +541,7 @@ impl CaseDriver for C14 {
     fn describe(&self, tier: Tier) -> Describe {
         Describe {
             rule: format!(
-                "{} cells (or none at all) forming EVERY DAG (every subset of the edges i -> j, i < j, each edge an instance) listed in EVERY order; the last cell with layout / layout+abstract / abstract-only views or no view at all (a placeholder cell) (all free); costed (deviation bound {}): units Nano/Micro/Angstrom, abstract view on the other cells, each instance's orientation (8) and offset (incl. 2e9), a second placement with angle Some(0), the layout's shape set (default: 7 shapes of all three kinds with and without nets interleaved over 2 layers x 2 purposes; none; one rectangle; all on one layer/purpose with a reversed-corner rectangle; clockwise polygon + negative rectangle; rectangles given by every pair of opposite corners, a degenerate rectangle, an explicitly closed polygon and a path returning to its start; four-vertex polygons: an axis-parallel rectangle in both windings, a parallelogram, a right trapezoid; shapes on a third layer whose purposes are numbered 20 / 256 / 300 / -5, the message additionally drawing on its undeclared purpose 0), annotations 1/0/2, abstract ports 1/0/2 (second port on two layers) or one port over two layers holding each of the 9 pairs of shape kinds (rectangle, polygon, path), or three ports two of which share a net, or three ports the middle one without any geometry, blockages on 1/0/2 layers or the same 9 kind pairs, outline rectangle / L, layout and abstract views named differently from their cell. Each case is checked raw->proto->raw (fresh and original Layers) and proto->raw->proto (message built independently by the harness). Non-trivial = has an instance or an abstract.",
+                "{} cells (or none at all) forming EVERY DAG (every subset of the edges i -> j, i < j, each edge an instance) listed in EVERY order; the last cell with layout / layout+abstract / abstract-only views or no view at all (a placeholder cell) (all free); costed (deviation bound {}): units Nano/Micro/Angstrom, abstract view on the other cells, each instance's orientation (8, and the rotation stated as -90 / -180 / -270) and offset (incl. 2e9), a second placement with angle Some(0), the layout's shape set (default: 7 shapes of all three kinds with and without nets interleaved over 2 layers x 2 purposes; none; one rectangle; all on one layer/purpose with a reversed-corner rectangle; clockwise polygon + negative rectangle; rectangles given by every pair of opposite corners, a degenerate rectangle, an explicitly closed polygon, a path returning to its start and a path stating a point twice in a row; four-vertex polygons: an axis-parallel rectangle in both windings, a parallelogram, a right trapezoid; shapes on a third layer whose purposes are numbered 20 / 256 / 300 / -5, the message additionally drawing on its undeclared purpose 0), annotations 1/0/2, abstract ports 1/0/2 (second port on two layers) or one port over two layers holding each of the 9 pairs of shape kinds (rectangle, polygon, path), or three ports two of which share a net, or three ports the middle one without any geometry, blockages on 1/0/2 layers or the same 9 kind pairs, outline rectangle / L, layout and abstract views named differently from their cell. Each case is checked raw->proto->raw (fresh and original Layers) and proto->raw->proto (message built independently by the harness). Non-trivial = has an instance or an abstract.",
                 if self.four { "4".to_string() } else { "1..3".to_string() },
                 self.bound(tier)
             ),
